@@ -8,25 +8,30 @@
    `init c0 reqs` = initial cache c0 and one requester per element of reqs (any number);
    `run S s sched` = the state after the requesters took steps in the order `sched` (any list of requester
    numbers: every interleaving of cache reads, lock attempts, upstream calls, cache writes and unlocks).
-   `fetched s` = upstream call log (main tile of the meta tile asked for; the tile itself without meta tiling). *)
+   `fetched s` = upstream call log (main tile of the meta tile asked for; the tile itself without meta tiling).
+   Expiry: `grid_sys_x g recheck reload up expire old` is the same system with an expire timestamp (refresh_before,
+   seeding) when `expire = true`; `old t` = the expired file of tile t present at the start (None: no such file),
+   `c0` / `cache s` = the files is_cached accepts (present and not expired).  So `cached c0 r = false` reads
+   "r is missing OR expired at the start".  `grid_sys g ..` = `grid_sys_x g .. false (fun _ => None)`. *)
 From Coq Require Import ZArith List Bool Arith Ascii.
 Import ListNotations.
 From MP Require Import Base Creator Creator_proofs.
 
 (* The upstream is asked at most once per meta tile - for any number of requesters, any request lists, any
-   initial cache with correct content and any interleaving - and only for meta tiles of requested tiles that
-   were not cached at the start.  (Holds with and without the reload of F22.) *)
+   initial cache with correct content, with or without an expire timestamp and expired files, and any
+   interleaving - and only for meta tiles of requested tiles that were missing or expired at the start.
+   (The re-check under the lock looks at the file as it is then: a tile re-created by the lock holder counts.) *)
 Theorem one_fetch_per_meta_tile :
-  forall g reload up c0 reqs sched,
-    valid_gconf g -> valid_reqs g reqs -> content_ok up c0 ->
-    let s := run (grid_sys g true reload up) (init c0 reqs) sched in
+  forall g reload up expire old c0 reqs sched,
+    valid_gconf g -> valid_reqs g reqs -> content_ok up c0 -> old_ok expire old ->
+    let s := run (grid_sys_x g true reload up expire old) (init c0 reqs) sched in
     NoDup (fetched s) /\
     forall m, In m (fetched s) ->
               exists req r, In req reqs /\ In r req /\ cached c0 r = false /\ m = g_main g r.
 Proof. exact grid_one_fetch. Qed.
 
-(* Every finished requester hands back, for every tile it asked for, the image the upstream draws for exactly
-   that tile - for any number of requesters and any interleaving. *)
+(* Without expiry: every finished requester hands back, for every tile it asked for, the image the upstream
+   draws for exactly that tile - for any number of requesters and any interleaving. *)
 Theorem all_responses_correct :
   forall g up c0 reqs sched p pr,
     valid_gconf g -> valid_reqs g reqs -> content_ok up c0 ->
@@ -35,13 +40,26 @@ Theorem all_responses_correct :
     exists req, nth_error reqs p = Some req /\ response pr = map (fun r => (r, Some (up r))) req.
 Proof. exact grid_responses_correct. Qed.
 
-(* The cache holds, at every moment, only correct images and only tiles that were there at the start or belong
-   to the meta tile of a requested tile that was missing at the start; when all requesters have finished it
-   holds exactly those, each with its own image. *)
+(* With an expire timestamp: every requested tile is answered with an image, namely the upstream's image of that
+   tile or the expired image of that tile that was in the cache at the start (a request that loaded the expired
+   image and then waited for the lock keeps it: load_tile does nothing for a Tile that has a source) - never
+   without image, never another tile's image.
+   _partial: "the correct image" would be the upstream's; see the report (candidate finding). *)
+Theorem all_responses_correct_with_expiry_partial :
+  forall g up expire old c0 reqs sched p pr r,
+    valid_gconf g -> valid_reqs g reqs -> content_ok up c0 -> old_ok expire old ->
+    let s := run (grid_sys_x g true true up expire old) (init c0 reqs) sched in
+    nth_error (procs s) p = Some pr -> p_pc pr = Done -> In r (p_req pr) ->
+    exists v, In (r, Some v) (response pr) /\ (v = up r \/ old r = Some v).
+Proof. exact grid_responses_answered. Qed.
+
+(* The valid (not expired) part of the cache holds, at every moment, only correct images and only tiles that were
+   valid at the start or belong to the meta tile of a requested tile that was missing or expired at the start;
+   when all requesters have finished it holds exactly those, each with its own image. *)
 Theorem final_cache_exact :
-  forall g reload up c0 reqs sched,
-    valid_gconf g -> valid_reqs g reqs -> content_ok up c0 ->
-    let s := run (grid_sys g true reload up) (init c0 reqs) sched in
+  forall g reload up expire old c0 reqs sched,
+    valid_gconf g -> valid_reqs g reqs -> content_ok up c0 -> old_ok expire old ->
+    let s := run (grid_sys_x g true reload up expire old) (init c0 reqs) sched in
     (forall t v, lookup (cache s) t = Some v ->
                  v = up t /\ (cached c0 t = true \/ needed_tile g c0 reqs t)) /\
     (all_done s = true ->
@@ -69,21 +87,21 @@ Proof. exact grid_main_same_iff. Qed.
    order) is not proved; that they cannot corrupt each other follows from final_cache_exact /
    all_responses_correct, which hold for every interleaving. *)
 Theorem different_meta_tiles_independent_partial :
-  forall g reload up c0 reqs sched p k,
-    valid_gconf g -> valid_reqs g reqs -> content_ok up c0 ->
-    let s := run (grid_sys g true reload up) (init c0 reqs) sched in
-    snd (step (grid_sys g true reload up) s p) = OLock k false ->
+  forall g reload up expire old c0 reqs sched p k,
+    valid_gconf g -> valid_reqs g reqs -> content_ok up c0 -> old_ok expire old ->
+    let s := run (grid_sys_x g true reload up expire old) (init c0 reqs) sched in
+    snd (step (grid_sys_x g true reload up expire old) s p) = OLock k false ->
     exists q prq m, q <> p /\ nth_error (procs s) q = Some prq /\ holds (p_pc prq) = Some m /\ g_key g m = k.
 Proof. exact grid_refused. Qed.
 
 (* No deadlock: whenever a lock attempt is refused, some other requester can take a step that is not a refused
    lock attempt (the holder is inside its critical section, where it never waits for a second lock). *)
 Theorem refused_lock_has_running_holder :
-  forall g reload up c0 reqs sched p k,
-    valid_gconf g -> valid_reqs g reqs -> content_ok up c0 ->
-    let s := run (grid_sys g true reload up) (init c0 reqs) sched in
-    snd (step (grid_sys g true reload up) s p) = OLock k false ->
-    exists q, q <> p /\ forall k', snd (step (grid_sys g true reload up) s q) <> OLock k' false.
+  forall g reload up expire old c0 reqs sched p k,
+    valid_gconf g -> valid_reqs g reqs -> content_ok up c0 -> old_ok expire old ->
+    let s := run (grid_sys_x g true reload up expire old) (init c0 reqs) sched in
+    snd (step (grid_sys_x g true reload up expire old) s p) = OLock k false ->
+    exists q, q <> p /\ forall k', snd (step (grid_sys_x g true reload up expire old) s q) <> OLock k' false.
 Proof. exact grid_no_deadlock. Qed.
 
 (* TileLocker.lock_filename is injective in (cache id, tile coordinate) for cache ids of equal length
